@@ -1,6 +1,11 @@
 import Femio.Props.C05
 import Femio.Props.C05K
 open Femio.C05
+#print axioms C05_full_save_plan
+#print axioms C05_crash_inv_plan
+#print axioms C05_history_inv_plan
+#print axioms C05_crash_safe_plan
+#print axioms mid_good
 #print axioms C05_full_save
 #print axioms C05_crash_inv
 #print axioms C05_save_inv
